@@ -219,7 +219,7 @@ def normalized_index_expression(indices, shape, int_to_slice=False):
             if idx < 0:
                 idx += n
 
-            if idx >= n:
+            if not 0 <= idx < n:
                 raise IndexError('Index {} is out of bounds for axis '
                                  '{} with size {}.'
                                  ''.format(idx, i, n))
